@@ -206,6 +206,7 @@ def known_case():
 
 def run(replay=None):
     ck = common.Check("C16", level="proof")
+    common.regen_translators()            # Gen/TransformedInterval_gen.v: TransformedOracle::evalInterval, from the source
     proof = ck.proof_obligations()
     ok_d, log_d = common.build_driver(**common.DRIVERS["driver"])
     ok_h, log_h = common.build_harness(["bin/expr"])
